@@ -763,6 +763,18 @@ func ruleP08Split(p *Prog, r *Report) {
 			r.check(isS && s == "", rule, key, p.instrPos(ret), "no known ending: (text, \"\")", "without a line ending the text is not returned whole with an empty ending")
 			continue
 		}
+		// the library spelling: rest, found := strings.CutSuffix(text, e); if found { return rest, e }
+		if cc, idx := callOf(a); cc != nil && idx == 0 && staticCallee(cc) != nil && staticCallee(cc).String() == "strings.CutSuffix" {
+			okCut := strip(cc.Common().Args[0]) == ssa.Value(text) && sameValue(cc.Common().Args[1], b)
+			found := false
+			for _, g := range guardsOf(ret.Block()) {
+				if gc, gi := callOf(strip(g.Cond)); gc == cc && gi == 1 && g.Pol {
+					found = true
+				}
+			}
+			r.check(okCut && found, rule, key, p.instrPos(ret), "(text minus its suffix e, e) when text ends in e", "splitOffLineEnding does not return CutSuffix(text, e) and e under 'found'")
+			continue
+		}
 		// text[:len(text)-len(e)], e   guarded by HasSuffix(text, e)
 		sl, ok := a.(*ssa.Slice)
 		good := ok && strip(sl.X) == ssa.Value(text) && sl.Low == nil && sl.High != nil
